@@ -90,9 +90,15 @@ def gen_design(rng, profile='plain'):
     d.outputs = d.data_pos + d.so
     # state elements
     d.ffs = []
+    # a third of the designs: hand-instantiated cells whose names END in the letters of the scan-in pin suffix '.SI' (S, I, SI, _SI) next to a
+    # twin without that ending (synchroniser stages sync0 / sync0S): stripping the pin suffix must not touch the instance name
+    hand = rng.random() < 0.33
     for i in range(n_scan):
         kind = rng.choice(FF_UP) if profile == 'plain' or rng.random() < 0.5 else rng.choice(FF_LOW)
-        d.ffs.append({'name': f'state_reg_{i}_' if style != 'plain' else f'ff{i}', 'kind': kind, 'scan': True})
+        nm = f'state_reg_{i}_' if style != 'plain' else f'ff{i}'
+        if hand:
+            nm = [f'sync{i // 2}', f'sync{i // 2}S'][i % 2] if i < 4 else rng.choice([f'busy{i}_I', f'st{i}_STATUS', f'x{i}_SI', f'd{i}BUS', f'ff{i}'])
+        d.ffs.append({'name': nm, 'kind': kind, 'scan': True})
     for i in range(rng.choice([0, 0, 1, 2])):
         kind = rng.choice(FF_NOSCAN_UP) if profile == 'plain' or rng.random() < 0.5 else 'dffx1'
         d.ffs.append({'name': f'ns_reg_{i}', 'kind': kind, 'scan': False})
